@@ -291,6 +291,7 @@ func main() {
 	// ---- part 3: redirect followed by a session rebuild --------------------------------------------
 	pool(4, run.Pick(8, 60), func(_, i int) { runRedirectSwitch(i) })
 	pool(4, run.Pick(12, 90), func(_, i int) { runRefusedThenOther(i) })
+	pool(4, run.Pick(8, 60), func(_, i int) { runTwoDescribesThenSwitch(i) })
 	phase("part 3 redirect + switch")
 	finish()
 }
